@@ -330,7 +330,7 @@ def run_shard(shard, tier, seed):
             continue
         n = base[2]
         c['lines_in_first_use:' + fam] = n
-        limit = 600 if tier == 'quick' else 6000
+        limit = 600 if tier == 'quick' else 1500
         stride = max(1, -(-n // limit))
         ks = list(range(1, n + 1, stride))
         for k in ks:
